@@ -32,14 +32,15 @@ theorem follow_append (w : World) (o : Nat) (p q : List String) :
 
 /-- Different spellings of one object: if two selectors resolve (in any two contexts) to the same object,
     a binding through either lands on the same key. -/
-theorem same_object_same_key (w : World) (c1 c2 : Ctx) (b : Bindings) (s1 s2 : List String) (o : Nat)
+theorem same_object_same_key (w : World) (sk : DSkip) (c1 c2 : Ctx) (b : Bindings) (s1 s2 : List String) (o : Nat)
     (arg : String) (v : Int) (hd1 : c1.dyn = true) (hd2 : c2.dyn = true)
     (h1 : resolve w c1 s1 = .ok o) (h2 : resolve w c2 s2 = .ok o) :
-    (runStmt w c1 b (.bind s1 arg v)).1 = (runStmt w c2 b (.bind s2 arg v)).1 := by
-  simp only [runStmt, hd1, hd2, h1, h2]
+    (runStmt w sk c1 b (.bind s1 arg v)).1 = (runStmt w sk c2 b (.bind s2 arg v)).1 := by
+  simp only [runStmt, shouldSkip, known, hd1, hd2, h1, h2, Bool.true_and, Bool.not_true, Bool.false_and,
+    Bool.false_eq_true, if_false, Bool.not_true]
   by_cases hp : ((lookup o w.params).getD []).contains arg = true
-  · rw [if_pos hp, if_pos hp]; rfl
-  · rw [if_neg hp, if_neg hp]; rfl
+  · rw [if_pos hp, if_pos hp]
+  · rw [if_neg hp, if_neg hp]
 
 /-- The four import forms bind: the alias if given, else the last component for `from`, else the first. -/
 theorem boundName_forms (m : List String) (a : String) :
@@ -82,9 +83,9 @@ theorem enabling_rules (w : World) (c : Ctx) (i : Import) (hg : isGinFeature i =
 
 /-- Symbols are per file: an included file starts from an empty symbol table, and what it imports does
     not reach the including file (the context after the include is the context before it). -/
-theorem include_isolated (w : World) (c : Ctx) (b : Bindings) (body : List DStmt) :
-    (runStmt w c b (.unit body)).2.1 = c ∧
-    (runStmt w c b (.unit body)).1 = (runStmts w {} b body).1 := by
+theorem include_isolated (w : World) (sk : DSkip) (c : Ctx) (b : Bindings) (body : List DStmt) :
+    (runStmt w sk c b (.unit body)).2.1 = c ∧
+    (runStmt w sk c b (.unit body)).1 = (runStmts w sk {} b body).1 := by
   simp [runStmt]
 
 /-- non-vacuity: two spellings, one object -/
